@@ -429,4 +429,131 @@ def r4_8(ctx: Ctx, rule: str = "R4.8", modules: tuple = ("jsonpath.pointer",), f
     return rr
 
 
-RULES = [r4_1, r4_2, r4_3, r4_4, r4_5, r4_6, r4_7, r4_8]
+#: a document whose member names cover what RFC 6901 singles out - the two escaped characters alone, together and
+#: next to the digits of their escapes, the characters of the RFC's own example, the empty name, names that look like
+#: indices (canonical, leading zero, negative, exponent, `-`), blanks, non-ASCII in and beyond the BMP - nested in
+#: both kinds of container, with a scalar of every kind as leaves (distinct values, so a wrong node is seen)
+POINTER_DOC = {
+    "foo": ["bar", "baz"], "": 0, "a/b": 1, "c%d": 2, "e^f": 3, "g|h": 4, "i\\j": 5, "k\"l": 6, " ": 7, "m~n": 8,
+    "~": 9, "/": 10, "~1": 11, "~0": 12, "~01": 13, "/~/": 14, "0": "zero", "01": "leading", "-1": "minus", "-": "dash", "1e2": "exp",
+    "\u00e9": 15, "\U0001f600": 16, "a b": 17, "#": 18, "$": 19,
+    "arr": [20, [21, 22], {"x": [23], "": {"": 24}, "0": 25}, [], {}],
+    "t": True, "f": False, "n": None, "num": 1.5, "s": "text", "obj": {"arr": [{"a/b~c": [26]}]},
+    # digits that are not ASCII digits are name characters; characters a wrong 8-bit codec would move
+    "1\uff10": 27, "1\u0662": 28, "price \u20ac": 29, "\u201cq\u201d": 30, "\u0085": 31, "\u00ff\u0100": 32,
+    "big": [100, 101, 102, 103, 104, 105, 106, 107, 108, 109, 110, 111, 112],
+}
+
+
+def r4_9(ctx: Ctx) -> RuleResult:
+    """The clause itself on a covering document, by abstract execution (rules/model.py, exceptions as they run) of
+    `JSONPointer(text).resolve(doc)` and `.exists(doc)`: for every node of POINTER_DOC the pointer spelled from its
+    member names and indices with `~0` / `~1` escaping resolves to that very node (the same object), with escape
+    decoding off and - for pointers without a backslash - on; for every kind of pointer RFC 6901 section 4 cannot
+    evaluate (missing member, index out of range / not canonical / `-`, any token applied to a scalar) resolution
+    raises a pointer *resolution* error, returns the caller's default when one is given, never a value, and `exists`
+    is false.  (Negative indices and `#`/`~`-prefixed tokens, documented extensions, are not sampled.)"""
+    from sa.peval import UNKNOWN
+
+    from .model import RAISES
+    from .model import MObj
+    from .model import Model
+    from .model import _ConstructorRaises
+
+    rr = RuleResult("R4.9", "every node's pointer resolves to that node; what RFC 6901 cannot evaluate is a resolution error", floor=120)
+    cls = ctx.repo.require_class("jsonpath.pointer.JSONPointer")
+    rfn = ctx.repo.find_method(cls, "resolve")
+    efn = ctx.repo.find_method(cls, "exists")
+    if rfn is None or efn is None:
+        raise AnalysisError("R4.9: JSONPointer.resolve / exists not found")
+
+    def esc(tok: str) -> str:
+        return tok.replace("~", "~0").replace("/", "~1")
+
+    nodes: List[Tuple[str, object]] = []
+
+    def walk(v: object, text: str) -> None:
+        nodes.append((text, v))
+        if isinstance(v, dict):
+            for k, x in v.items():
+                walk(x, text + "/" + esc(k))
+        elif isinstance(v, list):
+            for i, x in enumerate(v):
+                walk(x, text + "/" + str(i))
+
+    walk(POINTER_DOC, "")
+
+    def run(text: str, unicode_escape: bool, method: str, kwargs: Optional[Dict[str, object]] = None):  # type: ignore[no-untyped-def]
+        model = Model(ctx, "R4.9")
+        model.whole_bodies = model.auto_construct = model.exact_exceptions = True
+        try:
+            ptr = model.new("jsonpath.pointer.JSONPointer", text, unicode_escape=unicode_escape)
+        except _ConstructorRaises:
+            return "construct", model.last_raised
+        r = model.call(ptr, method, [POINTER_DOC], kwargs or {})
+        return r, model.last_raised
+
+    def same(a: object, b: object) -> bool:
+        return a is b if isinstance(b, (dict, list)) else (a == b and type(a) is type(b))
+
+    for text, node in nodes:
+        for ue in (False, True):
+            if ue and "\\" in text:
+                continue
+            got, _c = run(text, ue, "resolve")
+            label = f"JSONPointer({text!r}, unicode_escape={ue}).resolve(doc)"
+            if got is UNKNOWN:
+                raise AnalysisError(f"R4.9: {label} cannot be determined")
+            if got == "construct" or got is RAISES:
+                rr.bad(rfn, rfn.node, f"{label} raises {_c or 'an error'}: the pointer spelled from a node's own location does not reach it",
+                       construct=f"resolve({text!r}, unicode_escape={ue}) raises")
+            elif same(got, node):
+                ex_, _c2 = run(text, ue, "exists")
+                if ex_ is True:
+                    rr.ok(rfn.loc(), f"{text!r} (unicode_escape={ue}) -> that node; exists")
+                elif ex_ is UNKNOWN:
+                    raise AnalysisError(f"R4.9: exists for {text!r} cannot be determined")
+                else:
+                    rr.bad(efn, efn.node, f"JSONPointer({text!r}).exists(doc) is {'an exception' if ex_ is RAISES else ex_!r} although resolve succeeds",
+                           construct=f"exists({text!r}) disagrees with resolve")
+            else:
+                rr.bad(rfn, rfn.node, f"{label} yields {got!r:.60}, not the node at that location ({node!r:.60})",
+                       construct=f"resolve({text!r}, unicode_escape={ue}) -> another node")
+    invalid = ["/nope", "/foo/2", "/foo/-", "/foo/01", "/foo/1e0", "/foo/+1", "/foo/ 1", "/foo/x", "/foo/", "/arr/5", "/arr/1/2", "/arr/3/0", "/arr/4/a",
+               "/t/0", "/f/x", "/n/y", "/num/0", "/s/0", "/s/length", "/0/0", "/arr/2/x/1", "/obj/arr/0/a~1b~0c/1", "/foo/0/0", "/a~1b/0", "/a", "/a/b", "/ /x",
+               "/big/1\uff10", "/big/1\u0662", "/big/13", "/big/012", "/foo/\u0661"]
+    res_err = "JSONPointerResolutionError"
+    for text in invalid:
+        got, c = run(text, False, "resolve")
+        label = f"JSONPointer({text!r}).resolve(doc)"
+        if got is UNKNOWN:
+            raise AnalysisError(f"R4.9: {label} cannot be determined")
+        if got == "construct":
+            if c and ctx.repo.is_subclass(c, "JSONPointerError"):
+                rr.ok(rfn.loc(), f"{text!r} is refused when parsed ({c.split('.')[-1]})")
+            else:
+                rr.bad(rfn, rfn.node, f"JSONPointer({text!r}) raises {c}: not a pointer error", construct=f"JSONPointer({text!r}) raises {c}")
+            continue
+        if got is not RAISES:
+            rr.bad(rfn, rfn.node, f"{label} yields {got!r:.60}; RFC 6901 section 4 cannot evaluate this pointer on the document (it must be a resolution error)",
+                   construct=f"resolve({text!r}) yields a value")
+            continue
+        if not c or not ctx.repo.is_subclass(c, res_err):
+            rr.bad(rfn, rfn.node, f"{label} raises {c or 'an unknown class'}, which is not a pointer resolution error", construct=f"resolve({text!r}) raises {c}")
+            continue
+        ex_, _c3 = run(text, False, "exists")
+        dflt, _c4 = run(text, False, "resolve", {"default": "<default>"})
+        if ex_ is UNKNOWN or dflt is UNKNOWN:
+            raise AnalysisError(f"R4.9: exists / resolve with a default for {text!r} cannot be determined")
+        if ex_ is not False:
+            rr.bad(efn, efn.node, f"JSONPointer({text!r}).exists(doc) is {'an exception (' + str(_c3) + ')' if ex_ is RAISES else repr(ex_)} although resolve fails",
+                   construct=f"exists({text!r}) disagrees with resolve")
+        elif dflt != "<default>":
+            rr.bad(rfn, rfn.node, f"{label[:-1]}, default=...) gives {'an exception' if dflt is RAISES else repr(dflt)} instead of the caller's default",
+                   construct=f"resolve({text!r}, default=) does not return the default")
+        else:
+            rr.ok(rfn.loc(), f"{text!r}: {c.split('.')[-1]}, exists False, the default is returned")
+    return rr
+
+
+RULES = [r4_1, r4_2, r4_3, r4_4, r4_5, r4_6, r4_7, r4_8, r4_9]
